@@ -142,7 +142,11 @@ class GroupAdditivityScheme(Scheme):
         groups = self._AssignGroup(mol)
         descriptors = self._AssignDescriptor(mol, clean_mol)
         all_descriptors = groups.copy()
-        all_descriptors.update(descriptors)
+        # A correction descriptor may carry the name of a group (e.g. 'CC'):
+        # counts under one name add up.
+        for name in descriptors:
+            all_descriptors[name] = all_descriptors.get(name, 0) \
+                + descriptors[name]
         return all_descriptors
 
     def _AssignCenterPattern(self, mol, debug=0):
